@@ -139,3 +139,27 @@ class GatedFunction:
         g = [float(c) for c in self.coeffs]
         g[0] += 2 * self.q * float(x[0])
         return array(g)
+
+
+def cvec_key(x) -> tuple:
+    return tuple((float(complex(v).real), float(complex(v).imag)) for v in atleast_1d(x))
+
+
+class GatedVecFunction:
+    """Picklable `x -> [c0_j + sum_i c_ji x_i + q_j x_0**2]_j` (real or complex x), gated by input."""
+
+    def __init__(self, coef: list[list[float]], c0: list[float], q: list[float], token: int | None = None,
+                 key_of: dict[tuple, int] | None = None) -> None:
+        self.coef = [list(r) for r in coef]
+        self.c0 = list(c0)
+        self.q = list(q)
+        self.token = token
+        self.key_of = key_of
+
+    def __call__(self, x):
+        x = atleast_1d(x)
+        k = self.key_of.get(cvec_key(x)) if self.key_of is not None else None
+        if k is not None:
+            pass_gate(self.token, k)
+        return array([c0 + sum(c * v for c, v in zip(row, x)) + q * x[0] ** 2
+                      for row, c0, q in zip(self.coef, self.c0, self.q)])
